@@ -22,7 +22,9 @@
 (***************************************************************************)
 EXTENDS Naturals, Sequences, FiniteSets
 
-Kinds == {"authn", "authz", "comm", "timeout", "arg", "norule", "internal", "config", "foreign", "canceled"}
+(* "evalerr" = *cellib.EvalError, what a failed or false CEL expression leaves in the chain (it has an   *)
+(* Is method of its own): no kind of heimdall's, like any foreign error                                  *)
+Kinds == {"authn", "authz", "comm", "timeout", "arg", "norule", "internal", "config", "foreign", "canceled", "evalerr"}
 
 RECURSIVE Is(_, _)
 Is(e, k) ==
